@@ -35,6 +35,11 @@ TCPServer / H11Protocol|H2Protocol / WSStream / wsproto stack, application = acc
   The fragmentation, the ping placement and the split are *data choice points* (always fully enumerated).
   Frames come from a hand-written RFC 6455 / 7692 writer (mc/x_c10c11_ref.py); the client's final Close(1000)
   is sent in a read of its own once everything before it was processed.
+  The receiving side of the client NEGOTIATES like a real one (mc/x_c10c11_run.GuardClient): "permessage-deflate on"
+  means the handshake OFFERS the extension; the independent wsproto client that reads the server's frames is created
+  when the handshake response arrives (101 over HTTP/1.1, 200 of the extended CONNECT over HTTP/2) and has the
+  extension enabled only if that response carries sec-websocket-extensions: permessage-deflate...  A frame with RSV1
+  without a negotiated extension is the protocol error it is (client-parse / echo / pong / no-1009 then fail).
 
 Oracle (expected values are computed from the message specification, never from hypercorn/wsproto):
   delivery        the application's websocket.receive messages are exactly the messages before the first
@@ -71,7 +76,8 @@ TECHNIQUE = ("bounded exhaustive enumeration of client WebSocket sessions (messa
              "under the virtual-time engines; two-connection histories in one world (sequential and every interleaving "
              "of the two sessions' messages, mixed carriers and compression); padded HTTP/2 DATA beyond the initial "
              "flow-control window; messages arriving while the handshake response is in flight; plus deviation-bounded "
-             "schedule exploration of frame arrival")
+             "schedule exploration of frame arrival; the reading client enables permessage-deflate only when the handshake "
+             "response of the carrier (101 / HTTP/2 200) announces it")
 RULE = ("one execution = one session (multi: two sessions on two connections in one world); non-trivial = a websocket "
         "instance ran and a non-default fragmentation/ping/split/merge/schedule choice was taken; distinct by digest of "
         "(messages delivered to the application, send outcomes, client-side parsed messages/pongs/close, connection end "
@@ -88,6 +94,8 @@ ASSUMPTIONS = [
     "pad: the client keeps to its flow-control window (a padded DATA frame is sent only when the stream and the "
     "connection window cover payload + padding + 1); 260 frames x 255 padding bytes stand for any traffic that "
     "exceeds the 65 535 byte initial window",
+    "the client compresses what it sends whenever it offered permessage-deflate (the scripted application's server "
+    "accepts every plain offer); what it is able to READ is decided by the handshake response alone",
     "early: a client may send frames as soon as the application has accepted although the 101 / 200 has not reached "
     "it yet (its own reading is stalled); the arrival is placed in that window by a guard on the application's accept",
 ]
